@@ -320,6 +320,10 @@ func genTarget(r *RNG) *asaDev {
 			}
 			if !dup {
 				b.Routes = append(b.Routes, rt)
+				if len(b.Intfs) > 1 && r.Chance(12) {
+					// a second route to the same destination through another interface
+					b.Routes = append(b.Routes, fmt.Sprintf("%s %s %s", b.Intfs[1][1], dst, Pick(r, gw)))
+				}
 			}
 		}
 	}
@@ -757,6 +761,30 @@ func unmanagedView(d *asaDev, managedIntf map[string]bool, acls, groups map[stri
 	return sb.String()
 }
 
+// rejectClass maps the strict device's refusal to a class (root cause), independent of names.
+func rejectClass(msg string) string {
+	for _, p := range [][2]string{
+		{"last line of bound access-list", "last_line_of_bound_acl_deleted"},
+		{"is still referenced", "object_still_referenced"},
+		{"is still bound", "acl_still_bound"},
+		{"does not exist", "object_missing"},
+		{"already contains this entry", "duplicate_ace"},
+		{"is not ", "line_number_misses_entry"},
+		{"out of range", "line_number_out_of_range"},
+		{"outside object-group mode", "sub_command_outside_mode"},
+		{"exit outside", "exit_outside_mode"},
+		{"already in group", "member_exists"},
+		{"not in group", "member_missing"},
+		{"identical destination", "route_destination_exists"},
+		{"not bound at", "access_group_not_bound"},
+	} {
+		if strings.Contains(msg, p[0]) {
+			return p[1]
+		}
+	}
+	return "other"
+}
+
 func leftovers(d *asaDev) []string {
 	var out []string
 	for _, g := range d.GOrder {
@@ -930,7 +958,8 @@ func run(ctx *Ctx) *Result {
 			}
 		}
 		sig := func(pred string) map[string]any {
-			return map[string]any{"pred": pred, "identical_groups_on_device": dupGroup, "unknown_interface_with_two_access_groups": multiUnknown}
+			_ = multiUnknown
+			return map[string]any{"pred": pred, "identical_groups_on_device": dupGroup}
 		}
 		// execute the real script
 		ex := &executor{d: c.dev.clone()}
@@ -938,7 +967,9 @@ func run(ctx *Ctx) *Result {
 		for i, cmd := range cmds {
 			if err := ex.exec1(cmd); err != nil {
 				if prop == "C08" || prop == "C01" || prop == "C10" {
-					res.Fail(sig("command_rejected_by_strict_device"), fmt.Sprintf("command %d %q: %v", i, cmd, err), c)
+					s := sig("command_rejected_by_strict_device")
+					s["reason"] = rejectClass(err.Error())
+					res.Fail(s, fmt.Sprintf("command %d %q: %v", i, cmd, err), c)
 				}
 				return
 			}
@@ -968,7 +999,55 @@ func run(ctx *Ctx) *Result {
 		}
 		if prop == "C07" {
 			if got := unmanagedView(final, managed, uAcls, uGroups); got != frame0 {
-				res.Fail(sig("unmanaged_content_changed"), "unmanaged content differs after the script:\n"+got+"-- before\n"+frame0, c)
+				// classification: the only difference is the member list of object-groups that an unbound, untagged
+				// ACL of the device references and that a managed ACL references too (edited in place by equalizedGroups)
+				class := "shared_group_of_unbound_acl_edited_in_place"
+				for g := range uGroups {
+					before, after := strings.Join(sortedCopy(c.dev.Groups[g]), ","), strings.Join(sortedCopy(final.Groups[g]), ",")
+					_, stillThere := final.Groups[g]
+					if before == after && stillThere {
+						continue
+					}
+					byUnbound, byManaged := false, false
+					for _, n := range c.dev.AOrder {
+						uses := false
+						for _, l := range c.dev.ACLs[n] {
+							if contains(refsOf(l), g) {
+								uses = true
+							}
+						}
+						if !uses {
+							continue
+						}
+						bound := false
+						for k, v := range c.dev.Bind {
+							_, intf, _ := strings.Cut(k, " ")
+							if v == n && managed[intf] {
+								bound = true
+							}
+						}
+						if bound {
+							byManaged = true
+						} else if !c.dev.aclBound(n) && !strings.Contains(n, "-DRC-") {
+							byUnbound = true
+						}
+					}
+					if !stillThere || !byUnbound || !byManaged {
+						class = "other"
+					}
+				}
+				restore := final.clone()
+				for g := range uGroups {
+					if _, ok := restore.Groups[g]; ok {
+						restore.Groups[g] = c.dev.Groups[g]
+					}
+				}
+				if unmanagedView(restore, managed, uAcls, uGroups) != frame0 {
+					class = "other"
+				}
+				s := sig("unmanaged_content_changed")
+				s["class"] = class
+				res.Fail(s, "unmanaged content differs after the script:\n"+got+"-- before\n"+frame0, c)
 			}
 		}
 		if prop == "C10" {
@@ -1038,6 +1117,18 @@ func corpus() []cfgCase {
 			"access-list inside_in-DRC-0 extended permit tcp object-group a-DRC-0 object-group b-DRC-0 eq 22\naccess-group inside_in-DRC-0 in interface inside\n",
 			"object-group network a\n network-object host 10.1.1.1\n network-object host 10.5.5.5\nobject-group network b\n network-object host 10.1.1.3\n"+
 				"access-list inside_in extended permit tcp object-group a object-group b eq 22\naccess-group inside_in in interface inside\n"),
+		// a kept pair with changed reference whose device line is moved by an earlier added line (same text modulo log)
+		mk(intf+"object-group network ga\n network-object host 10.1.1.1\nobject-group network gx\n network-object host 10.1.1.2\n"+
+			"access-list inside_in extended permit tcp object-group ga any4 eq 22\naccess-group inside_in in interface inside\n",
+			"object-group network g1\n network-object host 10.1.1.1\nobject-group network g2\n network-object host 10.1.1.2\n"+
+				"access-list inside_in extended permit tcp object-group g1 any4 eq 22 log\naccess-list inside_in extended permit tcp object-group g2 any4 eq 22\naccess-group inside_in in interface inside\n"),
+		// F-C07a: a group used by a managed line and by an unbound manual ACL is edited in place
+		mk(intf+"object-group network g1\n network-object host 10.5.5.5\naccess-list inside_in extended permit tcp object-group g1 any4 eq 22\n"+
+			"access-list MANUALACL extended permit tcp any4 object-group g1 eq 80\naccess-group inside_in in interface inside\n",
+			"object-group network g1\n network-object host 10.5.5.5\n network-object host 10.7.7.7\naccess-list inside_in extended permit tcp object-group g1 any4 eq 22\naccess-group inside_in in interface inside\n"),
+		// F-C08a: the only line of a bound ACL gets another log attribute: joined delete+add, the delete removes the last line
+		mk(intf+"access-list inside_in extended permit ip any4 any4\naccess-group inside_in in interface inside\n",
+			"access-list inside_in extended permit ip any4 any4 log\naccess-group inside_in in interface inside\n"),
 		// nothing on the device
 		mk(intf, "object-group network g\n network-object host 10.1.1.1\naccess-list inside_in extended permit ip object-group g any4\naccess-group inside_in in interface inside\nroute inside 0.0.0.0 0.0.0.0 10.0.0.1\n"),
 		// identical
